@@ -56,6 +56,14 @@ pub struct Case19 {
     pub period: u64,
     /// live boxes kept in a global ring buffer while the garbage is produced
     pub live: u64,
+    /// scaled heap (hook `#%verif-heap-chunk`): free lists grow by at least `chunk` slots instead of
+    /// 25 600 and are compacted after more than `limit` growth steps instead of 9, so that the
+    /// grow-and-compact cycle of natural collections takes thousands instead of 5*10^7 allocations
+    /// (0 = the built-in policy)
+    #[serde(default)]
+    pub chunk: u64,
+    #[serde(default)]
+    pub limit: u64,
 }
 
 const PRELUDE: &str = r#"(struct cell (next val) #:mutable)
@@ -140,6 +148,10 @@ fn check_cfg(ctx: &Ctx, ws: &mut Workers, c: &Case19, counting: bool, cfg: &Conf
         let pi = pattern_index(c.pattern);
         let call = |n: u64| format!("(run {} {} {} {})\n(stats)", pi, c.k.max(1), n, c.live);
         let mut steps = vec![Step::Eval { src: PRELUDE.to_string() }, Step::Eval { src: "(stats)".into() }];
+        let scaled = c.chunk > 0 && c.period == 0;
+        if scaled {
+            steps[0] = Step::Eval { src: format!("(#%verif-heap-chunk {} {})\n{}", c.chunk, c.limit, PRELUDE) };
+        }
         if c.period > 0 {
             steps.push(Step::GcStress { n: c.period });
         }
@@ -159,7 +171,13 @@ fn check_cfg(ctx: &Ctx, ws: &mut Workers, c: &Case19, counting: bool, cfg: &Conf
             c.live,
             c.n,
             4 * c.n,
-            if c.period > 0 { format!("a full collection forced every {} allocations", c.period) } else { "natural collections only".to_string() }
+            if c.period > 0 {
+                format!("a full collection forced every {} allocations", c.period)
+            } else if scaled {
+                format!("natural collections only, scaled heap: free lists grow by >= {} slots and are compacted after more than {} growth steps", c.chunk, c.limit)
+            } else {
+                "natural collections only".to_string()
+            }
         );
         let key = format!("{:?}", c.pattern);
         match r.end {
@@ -216,6 +234,27 @@ fn check_cfg(ctx: &Ctx, ws: &mut Workers, c: &Case19, counting: bool, cfg: &Conf
                 format!("{}{}\na free list has more than 6*10^7 slots although the live set is bounded: it is never compacted", shown, table),
             ));
         }
+        if scaled {
+            // after a compaction a free list holds the reachable slots R plus max(R, chunk) free ones; it then
+            // doubles at most `limit` times at full collections (and once more when an allocation finds it
+            // full) before it is compacted again: its size never exceeds (2R + chunk) * 2^(limit+1).  R is at
+            // most the live count read at the three probes plus the transient slack.  One more factor of 2 of
+            // margin; a list that is never compacted holds about as many slots as were ever allocated.
+            let r_v = l0v.max(l1v).max(l2v) + slack + 64;
+            let r_c = l0c.max(l1c).max(l2c) + slack + 64;
+            let bound = |r: i64| (2 * r + c.chunk as i64) << (c.limit + 2);
+            for st in [&st3[1], &st3[2]] {
+                if st[0] > bound(r_v) || st[3] > bound(r_c) {
+                    return Err(Failure::new(
+                        format!("c19:heap-size-grows:{}", key),
+                        format!(
+                            "{}{}\na free list is larger than the grow-and-compact policy allows for this live set (bounds: {} value slots, {} vector slots): it is not being compacted",
+                            shown, table, bound(r_v), bound(r_c)
+                        ),
+                    ));
+                }
+            }
+        }
         if c.period > 0 {
             // forced collections do not double a mostly empty heap, so its size stays put too
             // (a list may still be extended by one chunk of 25600 slots when it fills up between two forced collections)
@@ -229,7 +268,7 @@ fn check_cfg(ctx: &Ctx, ws: &mut Workers, c: &Case19, counting: bool, cfg: &Conf
         }
         if counting && cfg.0.is_empty() {
             ctx.stats.class(&format!("pattern:{:?}", c.pattern));
-            ctx.stats.class(if c.period > 0 { "regime:forced-collections" } else { "regime:natural-collections" });
+            ctx.stats.class(if c.period > 0 { "regime:forced-collections" } else if scaled { "regime:natural-collections-scaled-heap" } else { "regime:natural-collections" });
             ctx.stats.class_n("full-collections", r.steps.last().and_then(|s| s.hooks.get("full_collections").copied()).unwrap_or(0) as u64);
             ctx.stats.class_n("compactions", r.steps.last().and_then(|s| s.hooks.get("compactions").copied()).unwrap_or(0) as u64);
         }
@@ -255,11 +294,14 @@ pub fn run(ctx: &Ctx, replay: Option<&str>) -> i32 {
          garbage produced by native threads that have been joined; hash maps of boxes; lists of boxes grown and dropped. Each \
          runs n then 4n more iterations (n = 2000..40000; thorough up to 3*10^6) under natural collections or with a full \
          collection forced every 100-3000 allocations; heap statistics are read after a requested full collection before, \
-         between and after. Oracle: the live slot counts of both free lists do not grow with the iteration count (slack 64 + \
-         live set + 2k); under forced collections the free lists' sizes stay bounded too. One fixed weak-box scenario. \
+         between and after; two thirds of the natural-collection cases run on a scaled heap (growth chunk 8-256 slots \
+         instead of 25 600, compaction after 1-5 instead of 9 growth steps), where a case goes through tens to thousands of \
+         grow-and-compact cycles. Oracle: the live slot counts of both free lists do not grow with the iteration count (slack 64 + \
+         live set + 2k); under forced collections and on the scaled heap the free lists' sizes stay within the bound the \
+         growth policy implies for the live set. One fixed weak-box scenario. \
          Non-trivial = every distinct case.",
     );
-    ctx.assume("hooks: #%verif-heap-stats (slots, free slots by recount, cached free count for both free lists), gc-stress (forced collections of a <50% full heap do not double it); (#%gc-collect) runs a full collection");
+    ctx.assume("hooks: #%verif-heap-stats (slots, free slots by recount, cached free count for both free lists), gc-stress (forced collections of a <50% full heap do not double it), #%verif-heap-chunk (scaled growth chunk and compaction limit; the policy code is unchanged); (#%gc-collect) runs a full collection");
     if let Some(path) = replay {
         let Some(rf) = load_replay::<Case19>(std::path::Path::new(path)) else {
             eprintln!("cannot read replay file {}", path);
@@ -305,8 +347,21 @@ pub fn run(ctx: &Ctx, replay: Option<&str>) -> i32 {
         "reclaim",
         || {
             let ns: Vec<u64> = if big { vec![2000, 10_000, 40_000] } else { vec![10_000, 100_000, 1_000_000, 3_000_000] };
-            (prop::sample::select(PATTERNS.to_vec()), 1u64..10, prop::sample::select(ns), prop::sample::select(vec![0u64, 0, 100, 700, 3000]), prop::sample::select(vec![0u64, 1, 7, 40]))
-                .prop_map(|(pattern, k, n, period, live)| Case19 { pattern, k, n, period, live })
+            (
+                prop::sample::select(PATTERNS.to_vec()),
+                1u64..10,
+                prop::sample::select(ns),
+                prop::sample::select(vec![0u64, 0, 0, 100, 700, 3000]),
+                prop::sample::select(vec![0u64, 1, 7, 40]),
+                prop::sample::select(vec![0u64, 8, 16, 64, 256]),
+                prop::sample::select(vec![1u64, 2, 3, 5]),
+            )
+                .prop_map(|(pattern, k, n, period, live, chunk, limit)| {
+                    // two thirds of the natural-collection cases run on the scaled heap (with at least 10^4 iterations,
+                    // so that many grow-and-compact cycles happen)
+                    let scaled = period == 0 && chunk > 0;
+                    Case19 { pattern, k, n: if scaled { n.max(10_000) } else { n }, period, live, chunk: if scaled { chunk } else { 0 }, limit: if scaled { limit } else { 0 } }
+                })
         },
         ctx.n(250, 3000),
         |ws, c, counting| match check(ctx, ws, c, counting) {
